@@ -277,10 +277,29 @@ def count_ones(i, fr, st, pc, a, t, fn, r):
     return _ret(i, st, pc, acc)
 
 
+def _zeros_count(x, leading):
+    """leading / trailing zero count of a symbolic word as a priority encoder over its bits (exact bit functions;
+    outside window mode the support bound soon gives TOP)"""
+    bits = x.all_bits()
+    order = list(reversed(range(x.width))) if leading else list(range(x.width))
+    out = [ZERO] * 32
+    none_before = ONE
+    for rank, p in enumerate(order):
+        here = B.band(none_before, bits[p])      # first set bit is at p: the count is `rank`
+        for k in range(32):
+            if (rank >> k) & 1:
+                out[k] = B.bor(out[k], here)
+        none_before = B.band(none_before, B.bnot(bits[p]))
+    for k in range(32):                            # all zero: the count is the width
+        if (x.width >> k) & 1:
+            out[k] = B.bor(out[k], none_before)
+    return W(32, bits=out)
+
+
 def trailing_zeros(i, fr, st, pc, a, t, fn, r):
     x = a[0]
     if x.val is None:
-        raise Undecided("symbolic trailing_zeros")
+        return _ret(i, st, pc, _zeros_count(x, False))
     n = x.width if x.val == 0 else (x.val & -x.val).bit_length() - 1
     return _ret(i, st, pc, wconst(32, n))
 
@@ -1372,6 +1391,16 @@ def string_tokens(i, st, v):
     v = i.read_ptr(st, v) if isinstance(v, Ptr) else v
     if isinstance(v, Opaque) and v.kind == "string":
         return v.data[0]
+    if isinstance(v, Opaque) and v.kind == "bstr":
+        bs = v.data[0]
+        if all(b.val is not None for b in bs):
+            return (("lit", "".join(chr(b.val) for b in bs)),) if bs else ()
+        return (("bytes", tuple(bs)),)
+    if isinstance(v, W) and v.width in (8, 32):
+        # a char / byte pushed onto a string (single-byte characters)
+        if v.val is not None:
+            return (("lit", chr(v.val)),)
+        return (("bytes", (W(8, bits=v.all_bits()[:8]),)),)
     if isinstance(v, Opaque) and v.kind == "str" and v.data[0] is not None:
         return (("lit", v.data[0]),) if v.data[0] else ()
     raise Undecided("text of %r" % (v,))
@@ -1520,6 +1549,8 @@ def int_method(i, fr, st, pc, a, t, fn, r, name=None, tyname=None):
         res, c = (w_add if name.endswith("add") else w_sub)(x, a[1])
         return _ret(i, st, pc, Agg("tuple", None, 0, (res, W(1, bits=[c]))))
     if name in ("checked_add", "checked_sub", "saturating_add", "saturating_sub", "checked_mul", "wrapping_mul", "saturating_mul", "pow", "checked_pow", "wrapping_neg", "abs_diff", "min", "max", "rem_euclid", "div_euclid", "checked_div", "checked_rem", "next_power_of_two", "is_power_of_two", "ilog2", "leading_zeros", "trailing_ones", "leading_ones", "count_zeros", "rotate_left", "rotate_right", "swap_bytes", "reverse_bits"):
+        if not conc and name == "leading_zeros":
+            return _ret(i, st, pc, _zeros_count(x, True))
         if not conc and name == "wrapping_neg":
             return _ret(i, st, pc, w_sub(W(w, val=0, signed=x.signed), x)[0])
         if not conc and name == "wrapping_mul" and len(a) == 2 and isinstance(a[1], W) and (x.val is not None or a[1].val is not None):
@@ -3928,6 +3959,69 @@ for _w in ("i8", "i16", "i32", "i64", "i128", "isize"):
     TABLE["std::cmp::impls::<impl std::cmp::Ord for %s>::cmp" % _w] = ord_cmp_signed
 for _w in ("u8", "u16", "u128"):
     TABLE["std::cmp::impls::<impl std::cmp::Ord for %s>::cmp" % _w] = ord_cmp_int
+
+
+def fmt_write_str(i, fr, st, pc, a, t, fn, r):
+    """Formatter::write_str / write_char: the text is appended to the formatter's output"""
+    fp = a[0]
+    f = i.read_ptr(st, fp)
+    if not (isinstance(f, Opaque) and f.kind == "formatter"):
+        raise Undecided("write_str on %r" % (f,))
+    i.write_ptr(st, fp, Opaque("formatter", (f.data[0] + string_tokens(i, st, a[1]),)))
+    return _ret(i, st, pc, Agg("adt", RESULT, 0, (UNIT,)))
+
+
+TABLE.update({
+    "std::fmt::Formatter::<'a>::write_str": fmt_write_str,
+    "<std::fmt::Formatter<'_> as std::fmt::Write>::write_str": fmt_write_str,
+    "<std::fmt::Formatter<'_> as std::fmt::Write>::write_char": fmt_write_str,
+    "std::fmt::Write::write_char": fmt_write_str,
+})
+
+
+def render_text(tokens, asg):
+    """the concrete text of a token list under a total assignment of the atoms (std formatting of integers)"""
+    from .harness import eval_value
+    out = []
+    for tk in tokens:
+        if tk[0] == "lit":
+            out.append(tk[1])
+        elif tk[0] == "bytes":
+            for b in tk[1]:
+                v = eval_value(b, asg)
+                if v is None:
+                    raise Undecided("text byte with top")
+                out.append(chr(v))
+        elif tk[0] == "fmt":
+            _, kind, flags, width, v = tk
+            if isinstance(v, Opaque) and v.kind in ("string",):
+                txt = render_text(v.data[0], asg)
+            elif isinstance(v, Opaque) and v.kind == "str" and v.data[0] is not None:
+                txt = v.data[0]
+            elif isinstance(v, W):
+                val = eval_value(v, asg)
+                if val is None:
+                    raise Undecided("formatted value with top")
+                if v.width == 1 and kind == "display":
+                    txt = "true" if val else "false"
+                else:
+                    txt = {"display": "%d", "usize": "%d", "debug": "%d", "lower_hex": "%x", "upper_hex": "%X"}.get(kind, None)
+                    txt = (txt % val) if txt else (bin(val)[2:] if kind == "binary" else None)
+                    if txt is None:
+                        raise Undecided("format kind %s" % kind)
+            else:
+                raise Undecided("formatted %r" % (v,))
+            wv = None
+            if width is not None:
+                wv = eval_value(width, asg) if isinstance(width, W) else None
+                if wv is None:
+                    raise Undecided("symbolic width")
+            if wv is not None and len(txt) < wv:
+                txt = ("0" if flags == "0" else " ") * (wv - len(txt)) + txt if (flags == "0" or not isinstance(v, Opaque)) else txt + " " * (wv - len(txt))
+            out.append(txt)
+        else:
+            raise Undecided("token %r" % (tk[0],))
+    return "".join(out)
 
 
 def _int_dispatch(path):
